@@ -16,13 +16,15 @@ PROPERTY = "C11"
 LEVEL = "exploration"
 META = {
     "text": "Every network reachable from the radial line net R3 and the transformer net T3 (vector groups Dyn, YNyn, Yzn; zero-sequence data on ext_grid, lines, transformer) by <=2 deviations from a menu of symmetric wye/delta loads and sgens, switching/parallel/sn_mva/second-ext_grid edits and asymmetric loads/sgens with phase powers from {0, 0.1, 0.3} is solved by the real runpp_3ph. Symmetric networks are compared with runpp (phase voltage magnitudes, angles 0/-120/+120, one third of every bus/branch/ext_grid power); for unbalanced networks the phase powers of every element are summed against its total and per-phase nodal balance is evaluated from the res_*_3ph tables. Exhaustive within that bound, no sampling.",
-    "note": "Trusted: the per-phase bookkeeping in mc/f_3ph.py (sign conventions of the res_*_3ph tables) and runpp as reference for symmetric nets (same trafo_model 't', voltage angles on, constant-power loads). Only element kinds runpp_3ph documents as supported are in the alphabet; configurations it refuses or does not converge on are counted as outcomes. Per-phase balance at nodes with an asymmetric delta-connected element is judged on the phase sum only (its table reports line-to-line branch powers).",
+    "note": "Trusted: the per-phase bookkeeping in mc/f_3ph.py (sign conventions of the res_*_3ph tables) and runpp as reference for symmetric nets (same trafo_model 't', voltage angles on, constant-power loads). Only element kinds runpp_3ph documents as supported are in the alphabet; configurations it refuses or does not converge on are counted as outcomes. In unbalanced networks the per-phase balance at nodes with a delta-connected element is judged on the phase sum only (its tables report line-to-line branch powers, a symmetric delta load is booked with total/3 per phase).",
     "technique": "bounded exhaustive input enumeration (deviation-bounded k<=2) on the real runpp_3ph with a differential oracle against runpp and a per-phase nodal-balance invariant",
     "design_ref": "DESIGN.md §3 E1, §4 C11",
 }
 
 VTOL = 1e-6
 PTOL = 1e-5
+PTOL_PHASE = 5e-4     # per-phase balance in unbalanced nets: runpp_3ph stops on the positive-sequence mismatch only (3e-8 p.u.),
+                      # the negative/zero-sequence current-injection fixed point is then converged to ~1e-4 MVA
 VGROUPS = ["Dyn", "YNyn", "Yzn"]
 
 
@@ -30,9 +32,34 @@ def _ptol(scale):
     return PTOL + 1e-6 * scale
 
 
+def _others_at_eg_nodes(net3):
+    """recorded defect C11-ext-grid-bus-load: res_ext_grid_3ph is the network current of the ext_grid BUS, i.e. the ext_grid
+    power minus the consumption of the loads/sgens of that (fused) bus.  Returns {bus: [3 complex consumption of the other
+    elements of the node]} for every bus of a node that carries an ext_grid, and {ext_grid index: bus}."""
+    acc, _ = f_3ph.phase_sums(net3)
+    out = {}
+    r = net3.res_ext_grid_3ph
+    for n, a in acc.items():
+        egs = [i for i in net3.ext_grid.index if int(net3.ext_grid.at[i, "bus"]) in a["buses"]]
+        if not egs:
+            continue
+        eg = [sum(complex(float(r.at[i, "p_%s_mw" % ph]), float(r.at[i, "q_%s_mvar" % ph])) for i in egs) for ph in f_3ph.PH]
+        oth = [a["elem"][k] + eg[k] for k in range(3)]
+        for b in a["buses"]:
+            out[b] = oth
+    return out
+
+
+def _explained(diffs, oth):
+    """diffs: 3 complex (reported - expected)"""
+    return oth is not None and any(abs(x) > PTOL for x in oth) and all(abs(diffs[k] - oth[k]) <= _ptol(abs(oth[k])) for k in range(3))
+
+
 def judge_balanced(net3, net1, toks0):
     """clauses of the first sentence: voltages, angles, one third of the symmetric results"""
     vs = []
+    oth = _others_at_eg_nodes(net3)
+    EX = ["explained=ext_grid_reports_bus_injection"]
     rb3, rb1 = net3.res_bus_3ph, net1.res_bus
     for b in net1.bus.index:
         b = int(b)
@@ -58,7 +85,9 @@ def judge_balanced(net3, net1, toks0):
             tot = float(rb1.at[b, "%s_%s" % (pq, col)])
             ph = [float(rb3.at[b, "%s_%s_%s" % (pq, x, col)]) for x in f_3ph.PH]
             if any(abs(x - tot / 3.) > _ptol(abs(tot)) or x != x for x in ph):
-                vs.append(core.violation("bus_pq_third", {"bus": b, "quantity": pq, "runpp_total": tot, "phases": ph}, tokens=toks0, klass="bus_pq"))
+                part = (lambda z: z.real) if pq == "p" else (lambda z: z.imag)
+                ex = EX if b in oth and all(abs(ph[k] - tot / 3. - part(oth[b][k])) <= _ptol(abs(tot)) for k in range(3)) else []
+                vs.append(core.violation("bus_pq_third", {"bus": b, "quantity": pq, "runpp_total": tot, "phases": ph}, tokens=toks0 + ex, klass="bus_pq"))
     for tab, sides in (("line", ("from", "to")), ("trafo", ("hv", "lv"))):
         if not len(net1[tab]):
             continue
@@ -68,6 +97,8 @@ def judge_balanced(net3, net1, toks0):
                 for pq, col in (("p", "mw"), ("q", "mvar")):
                     tot = float(r1.at[i, "%s_%s_%s" % (pq, side, col)])
                     ph = [float(r3.at[i, "%s_%s_%s_%s" % (pq, x, side, col)]) for x in f_3ph.PH]
+                    if all(x != x for x in ph) and (tot != tot or abs(tot) <= PTOL):
+                        continue        # de-energised branch: NaN (runpp_3ph) vs 0 / NaN (runpp) is not a power difference
                     if tot != tot:
                         if any(x == x and abs(x) > PTOL for x in ph):
                             vs.append(core.violation("branch_pq_third", {"table": tab, "index": int(i), "side": side, "quantity": pq,
@@ -84,8 +115,11 @@ def judge_balanced(net3, net1, toks0):
             if tot != tot:
                 continue
             if any(x != x or abs(x - tot / 3.) > _ptol(abs(tot)) for x in ph):
+                part = (lambda z: z.real) if pq == "p" else (lambda z: z.imag)
+                b = int(net1.ext_grid.at[i, "bus"])
+                ex = EX if b in oth and all(abs(tot / 3. - ph[k] - part(oth[b][k])) <= _ptol(abs(tot)) for k in range(3)) else []
                 vs.append(core.violation("ext_grid_pq_third", {"index": int(i), "quantity": pq, "runpp_total": tot, "phases": ph},
-                                         tokens=toks0, klass="ext_grid"))
+                                         tokens=toks0 + ex, klass="ext_grid"))
     for tab in ("load", "sgen"):
         if not len(net1[tab]):
             continue
@@ -99,7 +133,7 @@ def judge_balanced(net3, net1, toks0):
     return vs
 
 
-def judge_phases(net3, toks0):
+def judge_phases(net3, toks0, sym):
     """clauses of the second sentence: phase powers of every element sum to its total; per-phase nodal balance"""
     vs = []
     supplied = {int(b) for b in net3.bus.index if np.isfinite(net3.res_bus_3ph.at[b, "vm_a_pu"])}
@@ -136,19 +170,29 @@ def judge_phases(net3, toks0):
                                              tokens=toks0 + ["tab=" + tab], klass=tab))
     # per-phase nodal balance
     acc, perbus = f_3ph.phase_sums(net3)
+    oth = _others_at_eg_nodes(net3)
     rb = net3.res_bus_3ph
     for n, a in sorted(acc.items()):
         buses = sorted(a["buses"])
         if not any(b in supplied for b in buses):
             continue
         scale = max([1.] + [abs(x) for x in a["elem"]] + [abs(x) for x in a["branch"]])
+        if not sym:
+            scale += (PTOL_PHASE - PTOL) / 1e-6
         mis = [a["elem"][k] + a["branch"][k] for k in range(3)]
         toks = toks0 + ["kind=" + k for k in sorted(a["kinds"])]
-        if a["delta_asym"]:
+        o = oth.get(buses[0])
+        if o is not None and any(abs(x) > PTOL for x in o):
+            if a["delta"] and not sym:
+                if abs(sum(mis) - sum(o)) <= _ptol(scale):
+                    toks = toks + ["explained=ext_grid_reports_bus_injection"]
+            elif all(abs(mis[k] - o[k]) <= _ptol(scale) for k in range(3)):
+                toks = toks + ["explained=ext_grid_reports_bus_injection"]
+        if a["delta"] and not sym:
             tot = sum(mis)
             if abs(tot.real) > _ptol(scale) or abs(tot.imag) > _ptol(scale):
                 vs.append(core.violation("nodal_balance_phase_sum", {"node_buses": buses, "mismatch_sum": [tot.real, tot.imag]},
-                                         tokens=toks + ["delta_asym"], klass="balance_sum"))
+                                         tokens=toks + ["delta"], klass="balance_sum"))
             continue
         bad = [k for k in range(3) if abs(mis[k].real) > _ptol(scale) or abs(mis[k].imag) > _ptol(scale)]
         if bad:
@@ -187,7 +231,7 @@ def _run_case(case):
     out["outcome"] = oc
     if oc != "ok":
         return out
-    out["violations"] += judge_phases(net3, toks0 + ["sym" if sym else "unbalanced"])
+    out["violations"] += judge_phases(net3, toks0 + ["sym" if sym else "unbalanced"], sym)
     if sym:
         net1 = copy.deepcopy(net)
         out["n"] += 1
@@ -256,7 +300,7 @@ def explore(tier, seed):
     rep.extra["cases"] = len(cases)
     rep.extra["menu_sizes"] = {"sym_R3": len(f_3ph.sym_menu("R3", tier)), "sym_T3": len(f_3ph.sym_menu("T3", tier)), "asym": len(f_3ph.asym_menu(tier))}
     core.run_cases(rep, run_case, cases)
-    rep.assumptions = ["voltages compared as complex numbers to 1e-6 p.u.; powers 1e-5 MVA abs + 1e-6 rel",
+    rep.assumptions = ["voltages compared as complex numbers to 1e-6 p.u.; powers 1e-5 MVA abs + 1e-6 rel; per-phase nodal balance of unbalanced nets 5e-4 MVA (stopping rule of the sequence-frame iteration)",
                        "only converged runpp_3ph runs are judged; refusals (unsupported vector group, three-winding transformer) are outcomes",
                        "values outside the finite alphabets are not covered"]
     return rep
